@@ -69,6 +69,9 @@ func runFullStack(r *vk.Run) {
 	for i := 0; i < rounds; i++ {
 		fullStackRound(r, rng, i)
 	}
+	for i := 0; i < full.N(1, 4); i++ {
+		fullStackCleanRestart(r, i)
+	}
 }
 
 func fullStackRound(r *vk.Run, rng *rand.Rand, id int) {
